@@ -454,7 +454,62 @@ pub enum Split {
     Single,
     /// Source split: `with_size` false models protocol 7 of apps 215/17550/17700/240
     Source { with_size: bool },
+    /// Source split of the bzip2-compressed reply (id bit 31 set; fragment 0 carries the
+    /// decompressed size and CRC32)
+    SourceCompressed,
     GoldSrc,
+}
+
+/// A reply with its pre-computed bzip2 form (python-built pool, see tools/bz2pool.py).
+#[derive(Clone, Debug)]
+pub struct Compressed {
+    pub bz2: Vec<u8>,
+    pub size: u32,
+    pub crc32: u32,
+}
+
+#[derive(serde::Deserialize)]
+struct PoolEntry {
+    kind: String,
+    #[serde(default)]
+    rules: Vec<(String, String)>,
+    #[serde(default)]
+    players: Vec<(u8, String, i32, u32)>,
+    payload_hex: String,
+    bz2_hex: String,
+    crc32: u32,
+}
+
+fn unhex(s: &str) -> Vec<u8> { (0 .. s.len() / 2).map(|i| u8::from_str_radix(&s[2 * i .. 2 * i + 2], 16).unwrap_or(0)).collect() }
+
+fn pool() -> &'static Vec<PoolEntry> {
+    static POOL: std::sync::OnceLock<Vec<PoolEntry>> = std::sync::OnceLock::new();
+    POOL.get_or_init(|| serde_json::from_str(include_str!("../../data/bz2pool.json")).expect("bz2pool.json"))
+}
+
+impl ValveState {
+    /// Replace the rules (or the player list) by a pool entry and return its compressed reply.
+    /// The reply encoded by this model must be byte-identical to the one python compressed.
+    pub fn adopt_pool_entry(&mut self, t: &mut Tape, want_rules: bool) -> Option<Compressed> {
+        let candidates: Vec<&PoolEntry> = pool().iter().filter(|e| (e.kind == "rules") == want_rules).collect();
+        let e = candidates[t.draw(DATA, candidates.len() as u64) as usize];
+        let mut whole = vec![0xff, 0xff, 0xff, 0xff];
+        if want_rules {
+            self.rules = e.rules.clone();
+            whole.extend(self.rules_payload());
+        } else {
+            if self.ship.is_some() {
+                return None;
+            }
+            self.player_list = e.players.iter().map(|(i, n, s, d)| Player { index: *i, name: n.clone(), score: *s, duration_bits: *d, deaths: 0, money: 0 }).collect();
+            whole.extend(self.players_payload());
+        }
+        if whole != unhex(&e.payload_hex) {
+            eprintln!("HARNESS-ERROR bz2 pool entry does not match the model's encoding of the same state");
+            std::process::exit(2);
+        }
+        Some(Compressed { bz2: unhex(&e.bz2_hex), size: whole.len() as u32, crc32: e.crc32 })
+    }
 }
 
 #[derive(Clone, Debug)]
@@ -539,6 +594,9 @@ pub struct ValveServer {
     pub fixed_challenges: Vec<[u8; 4]>,
     /// pre-computed reply datagrams per kind (used instead of encoding at answer time)
     pub fixed_frags: [Option<Vec<Vec<u8>>>; 4],
+    /// compressed form of the reply of a kind (used when its transport is SourceCompressed)
+    pub compressed: [Option<Compressed>; 4],
+    current_kind: usize,
     last_transport: &'static str,
 }
 
@@ -561,6 +619,8 @@ impl ValveServer {
             split_id: 7,
             fixed_challenges: Vec::new(),
             fixed_frags: [None, None, None, None],
+            compressed: [None, None, None, None],
+            current_kind: 0,
             last_transport: "single",
         }
     }
@@ -599,7 +659,15 @@ impl ValveServer {
     pub fn encode(&mut self, payload: &[u8], enc: &KindEnc, draw: &mut dyn FnMut(u64) -> u64) -> Vec<Vec<u8>> {
         let mut whole = vec![0xff, 0xff, 0xff, 0xff];
         whole.extend_from_slice(payload);
+        let comp = match enc.split {
+            Split::SourceCompressed => self.compressed[self.current_kind].clone(),
+            _ => None,
+        };
+        if let Some(c) = &comp {
+            whole = c.bz2.clone();
+        }
         let split = match enc.split {
+            Split::SourceCompressed if comp.is_none() => Split::Source { with_size: !self.split_no_size },
             Split::Single if whole.len() > MTU => {
                 if self.goldsrc_transport {
                     Split::GoldSrc
@@ -614,12 +682,14 @@ impl ValveServer {
             Split::Single => "single",
             Split::Source { with_size: true } => "split-source",
             Split::Source { with_size: false } => "split-source-nosize",
+            Split::SourceCompressed => "split-compressed",
             Split::GoldSrc => "split-goldsrc",
         };
         if split == Split::Single {
             return vec![whole];
         }
         let header = match split {
+            Split::SourceCompressed => 20,
             Split::Source { with_size: true } => 12,
             Split::Source { with_size: false } => 10,
             _ => 9,
@@ -645,7 +715,7 @@ impl ValveServer {
             pos += len;
         }
         self.split_id = self.split_id.wrapping_add(1) & 0x7fff_ffff;
-        let id = self.split_id;
+        let id = if split == Split::SourceCompressed { self.split_id | 0x8000_0000 } else { self.split_id };
         let mut out = Vec::new();
         let mut pos = 0;
         for (i, len) in cuts.iter().enumerate() {
@@ -657,6 +727,16 @@ impl ValveServer {
                     d.push(i as u8);
                     if with_size {
                         d.extend_from_slice(&(1248u16).to_le_bytes());
+                    }
+                }
+                Split::SourceCompressed => {
+                    d.push(n as u8);
+                    d.push(i as u8);
+                    d.extend_from_slice(&(1248u16).to_le_bytes());
+                    if i == 0 {
+                        let c = comp.as_ref().unwrap();
+                        d.extend_from_slice(&c.size.to_le_bytes());
+                        d.extend_from_slice(&c.crc32.to_le_bytes());
                     }
                 }
                 _ => d.push(((i as u8) << 4) | (n as u8 & 0x0f)),
@@ -688,6 +768,7 @@ impl ValveServer {
     fn answer(&mut self, cx: &mut Cx, from: SocketAddr, kind: Kind) {
         let payload = self.payload_for(kind);
         let enc = self.enc[kind.idx()].clone();
+        self.current_kind = kind.idx();
         let frags = match &self.fixed_frags[kind.idx()] {
             Some(f) => f.clone(),
             None => {
